@@ -174,9 +174,69 @@ def gen_seq(rng, explicit):
     return ops
 
 
+def gen_span_seq(rng):
+    """history of a mode-'r' workspace with one or two explicit writable spans (open('r+'/'a') ... close, or a
+    fetch_active_workspace('r+'/'a') block) followed by implicit re-opens and writes that must be refused again"""
+    ops = [_entry_op(rng.choice(MUTATORS if rng.chance(50) else READERS)) for _ in range(rng.range(0, 2))]
+    for _ in range(rng.range(1, 2)):
+        wm = rng.choice(["r+", "r+", "a"])
+        if rng.chance(50):
+            ops.append(dict(_entry_op(rng.choice(MUTATORS)), op="fetch_active", mode=wm))
+        else:
+            ops += [{"op": "close"}, {"op": "open", "mode": wm}]
+            ops += [_entry_op(rng.choice(MUTATORS)) for _ in range(rng.range(0, 2))]
+            if rng.chance(80):
+                ops.append({"op": "close"})
+        back = rng.weighted([("open", 45), ("open_r", 10), ("fa_r", 15), ("mon", 10), ("save_as", 10), ("p2w", 10)])
+        if back == "open":
+            ops.append({"op": "open", "mode": None})
+        elif back == "open_r":
+            ops.append({"op": "open", "mode": "r"})
+        elif back == "fa_r":
+            ops.append(dict(_entry_op(rng.choice(MUTATORS)), op="fetch_active", mode="r"))
+        elif back == "mon":
+            ops.append({"op": "monitored_copy", "target": rng.choice(["pts", "curve"])})
+        elif back == "save_as":
+            ops.append({"op": "save_as"})
+        else:
+            ops.append({"op": "path2workspace"})
+        ops.append(_entry_op(rng.choice(MUTATORS)))
+        if rng.chance(50):
+            ops.append({"op": "list", "kind": rng.choice(["objects", "data", "types"])})
+        if rng.chance(40):
+            ops += [{"op": "close"}, {"op": "open", "mode": None}, _entry_op(rng.choice(MUTATORS))]
+    return ops
+
+
 def generate(rng, tier):
     cases = entry_cases(rng, tier)
-    nseq = 45 if tier == "quick" else 1500
+    # the same entry points on a workspace that asked for "r+" and fell back to "r" (file held open by another handle)
+    # (close/open/save_as/create move the workspace to another handle or file: not meaningful under a held handle)
+    fb = [dict(c, ctor="fallback") for c in cases if c["target"] is not None and "variant" not in c
+          and not (c["owner"] == "Workspace" and c["member"] in CONTROL)
+          and (c["owner"] in ("DataType", "EntityType", "Workspace", "PropertyGroup")
+               or (c["target"], c["owner"], c["member"], c["ekind"]) in set(MUTATORS))]
+    rest = [dict(c, ctor="fallback") for c in cases if c["target"] is not None and "variant" not in c and c["ekind"] == "setter"]
+    fb += rng.sample(rest, 25 if tier == "quick" else len(rest))
+    seen = set()
+    for c in fb:
+        k = (c["target"], c["owner"], c["member"], c["ekind"])
+        if k not in seen:
+            seen.add(k)
+            cases.append(c)
+    for _ in range(14 if tier == "quick" else 400):
+        cases.append({"kind": "seq", "lock": False, "ops": gen_span_seq(rng)})
+    cases.append({"kind": "seq", "lock": False, "ops": [
+        dict(_entry_op(("pts", "Entity", "name", "setter")), op="fetch_active", mode="r+"), {"op": "open", "mode": None},
+        _entry_op(("pts", "Entity", "name", "setter")), {"op": "list", "kind": "objects"}, {"op": "close"}]})
+    cases.append({"kind": "seq", "lock": False, "ops": [
+        {"op": "close"}, {"op": "open", "mode": "r+"}, _entry_op(("pts", "ObjectBase", "add_data", "method")), {"op": "close"},
+        {"op": "open", "mode": None}, _entry_op(("pts", "Points", "vertices", "setter")), {"op": "close"},
+        dict(_entry_op(("curve", "Curve", "cells", "setter")), op="fetch_active", mode="a"), {"op": "open", "mode": None},
+        _entry_op(("curve", "Curve", "cells", "setter"))]})
+    for n in (2, 3):
+        cases.append({"kind": "helper", "which": "monitored_chain", "src_state": f"x{n}", "target": "pts", "n": n})
+    nseq = 36 if tier == "quick" else 1500
     # fixed sequences: a failed removal leaves a dead referent, the listing getter then has to sweep it (a write)
     cases.append({"kind": "seq", "lock": False, "ops": [
         _entry_op(("type_float", "EntityType", "create", "method")), {"op": "gc"}, {"op": "list", "kind": "types"},
@@ -219,6 +279,15 @@ def drive_one(case, work):
     if case["kind"] == "entry":
         if case["target"] is None:
             return {"not_driven": "no fixture instance of " + case["owner"]}
+        if case.get("ctor") == "fallback":
+            # built with the default mode "r+" while another handle holds the file: open() falls back to "r"
+            r = iodrive.run_entry(work, "r+", case, tag="fb", hold=True)
+            if "not_driven" in r:
+                return {"not_driven": r["not_driven"]}
+            r.pop("digest", None)
+            if r.get("handle_before") != "r":
+                return {"not_driven": f"no fallback: handle {r.get('handle_before')}"}
+            return {"r": r, "rw": None}
         rw = iodrive.run_entry(work, "r+", case, tag="tw")
         if "not_driven" in rw:
             return {"not_driven": rw["not_driven"]}
@@ -292,7 +361,12 @@ def drive_seq(case, work):
                     n_saved += 1
                     thunk = lambda n=n_saved: ws.save_as(os.path.join(tmp, f"saved{n}.geoh5"))  # noqa: E731
                 elif k == "path2workspace":
-                    thunk = lambda: path2workspace(str(ws.h5file))  # noqa: E731
+                    if iotrace.handle_state(ws) == "r+":
+                        # HDF5 shares one file object per process: a second open of a file this process holds writable is
+                        # writable too whatever mode is asked -- outside the property (the caller's own writable span)
+                        rec["not_driven"] = "file held writable by this process"
+                    else:
+                        thunk = lambda: path2workspace(str(ws.h5file))  # noqa: E731
                 elif k == "monitored_copy":
                     ent = T[op["target"]]()
                     if ent is None:
@@ -305,6 +379,10 @@ def drive_seq(case, work):
             finally:
                 del T
             rec["handle_before"] = iotrace.handle_state(ws)
+            rec["explicit_op"] = (k == "open" and op["mode"] in ("r+", "a")) or (k == "fetch_active" and op["mode"] != "r")
+            cur = str(ws.h5file)
+            # a read-only span: the handle is "r" or closed and the operation is not an explicit writable re-open
+            sha_b = iofix.sha256(cur) if rec["handle_before"] in ("r", "closed") and not rec["explicit_op"] else None
             if thunk is not None:
                 rec.update(iodrive.call_traced(thunk, ws))
             else:
@@ -312,7 +390,7 @@ def drive_seq(case, work):
             del thunk
             rec["handle_after"] = iotrace.handle_state(ws)
             rec["explicit_so_far"] = explicit
-            rec["sha_same"] = iofix.sha256(path) == sha0 if not explicit else None
+            rec["sha_same"] = (iofix.sha256(cur) == sha_b) if sha_b is not None else None
             out["ops"].append(rec)
     finally:
         final_file = str(ws.h5file)
@@ -365,6 +443,57 @@ def drive_helper(case, work):
             out["handle_after"] = iotrace.handle_state(w) if w is not None else None
             out["ctor_mode"] = getattr(w, "_mode", None)
             out["sha_same"] = iofix.sha256(path) == sha0
+        elif which == "monitored_chain":
+            # exports chained through the monitoring directory: the file exported first is opened read-only and is itself the
+            # source of the next exports into the same directory.  The clock the helper sees advances 0.1 s per reading, so the
+            # outcome does not depend on how fast this machine is.
+            from unittest import mock
+
+            import geoh5py.ui_json.utils as U
+
+            mon = os.path.join(tmp, "mon")
+            os.makedirs(mon)
+            clock = {"t": 1700000000.0}
+
+            def fake_time():
+                clock["t"] += 0.1
+                return clock["t"]
+
+            patches = [mock.patch("time.time", fake_time)]
+            if hasattr(U, "time") and callable(getattr(U, "time")):
+                patches.append(mock.patch.object(U, "time", fake_time))
+            ws0 = iodrive.open_ws(path, "r")
+            ent0 = iofix.locate(ws0, case["target"])
+            for p_ in patches:
+                p_.start()
+            try:
+                first = monitored_directory_copy(mon, ent0)
+                ws0.close()
+                del ent0
+                ws1 = iodrive.open_ws(first, "r")
+                ent1 = iofix.locate(ws1, case["target"])
+                sha0, ino0 = iofix.sha256(first), os.stat(first).st_ino
+                out["handle_before"] = iotrace.handle_state(ws1)
+                out["ctor_mode"] = ws1._mode  # noqa: SLF001
+                made = [first]
+
+                def chain():
+                    for _ in range(case["n"]):
+                        made.append(monitored_directory_copy(mon, ent1))
+
+                d = iodrive.call_traced(chain, ws1)
+            finally:
+                for p_ in patches:
+                    p_.stop()
+            out.update(d)
+            out["handle_after"] = iotrace.handle_state(ws1)
+            out["sha_same"] = iofix.sha256(first) == sha0
+            out["inode_same"] = os.stat(first).st_ino == ino0
+            out["distinct_exports"] = len({os.path.realpath(m) for m in made})
+            out["files_in_dir"] = len([f for f in os.listdir(mon) if f.endswith(".geoh5")])
+            out["expected_exports"] = case["n"] + 1
+            ws1.close()
+            del ws1, ent1, ws0
         elif which == "repack_readonly":
             # `repack=True` on a read-only workspace: close() hands the file to the external h5repack tool and replaces it.
             # h5repack is not installed here; a stand-in on PATH makes the call observable (it copies and appends one byte)
@@ -546,6 +675,9 @@ def case_term(case, obs):
     if case["kind"] == "entry":
         r = obs["r"]
         op = op_term(case, r)
+        if case.get("ctor") == "fallback":
+            return ("agree_run (Open R) RW true 1 [%s] [%s] [%s] %s && sites_ok IOT %s"
+                    % (op, c_err(r["exc"], r["calls"]), c_handle(r["handle_after"]), c_log(r["entries"]), c_sites(r["calls"])))
         return ("agree_run (Open R) R false 1 [%s] [%s] [%s] %s && sites_ok IOT %s"
                 % (op, c_err(r["exc"], r["calls"]), c_handle(r["handle_after"]), c_log(r["entries"]), c_sites(r["calls"])))
     if case["kind"] == "seq":
@@ -563,6 +695,10 @@ def case_term(case, obs):
                 % (c_handle(obs["handle0"]), cbool(bool(case.get("lock"))), cnat(obs.get("ncat", 1)), clist(ops), clist(outs), clist(hs), c_log(log), c_sites(sites)))
     # helpers
     which = case["which"]
+    if which == "monitored_chain":
+        return ("agree_run %s R false 0 [MonitoredCopy %s] [%s] [%s] %s && sites_ok IOT %s"
+                % (c_handle(obs["handle_before"]), c_calls(_body_calls(obs)), c_err(obs["exc"], obs["calls"]),
+                   c_handle(obs["handle_after"]), c_log(obs["entries"]), c_sites(obs["calls"])))
     if which == "repack_readonly":
         return ("agree_run %s R false 1 [Close] [%s] [%s] %s && sites_ok IOT %s"
                 % (c_handle(obs["handle_before"]), c_err(obs["exc"], obs["calls"]), c_handle(obs["handle_after"]),
@@ -599,7 +735,7 @@ def oracle(case, obs):
     if obs.get("fixture_problems") or (obs.get("r") or {}).get("fixture_problems"):
         fails.append({"key": "fixture-incomplete", "what": str(obs.get("fixture_problems") or obs["r"]["fixture_problems"])[:300]})
     if case["kind"] == "entry":
-        name = f"{case['owner']}.{case['member']}"
+        name = f"{case['owner']}.{case['member']}" + ("[fallback]" if case.get("ctor") == "fallback" else "")
         r, rw = obs["r"], obs["rw"]
         if not (r["sha_same_open"] and r["sha_same"]):
             fails.append({"key": "file-changed:" + name, "what": f"SHA-256 of the file differs after {name} on a mode='r' workspace"})
@@ -608,22 +744,30 @@ def oracle(case, obs):
         for fn in _bypass(r["entries"]):
             fails.append({"key": "gate-bypassed:" + fn, "what": f"{fn} was entered with a handle in mode 'r' during {name} "
                                                                 f"(the _io_call gate did not refuse; only HDF5 stands in the way)"})
-        wrote = [e[0] for e in rw["entries"] if e[0].startswith("H5Writer.")]
+        if rw is None:      # fallback run: no twin; a request for a writable mode that returns normally was not refused
+            wrote = [c[0] for c in r["calls"] if c[1] in ("r+", "a")]
+        else:
+            wrote = [e[0] for e in rw["entries"] if e[0].startswith("H5Writer.")]
         if wrote and r["exc"] is None and not (case["owner"] == "Workspace" and case["member"] in CONTROL):
             fails.append({"key": "write-not-refused:" + name,
-                          "what": f"{name} writes on an r+ twin ({wrote[:3]}) but returned without error on the mode='r' workspace"})
+                          "what": f"{name} writes ({wrote[:3]}) but returned without error on the read-only workspace"
+                                  + (" (handle fell back to 'r' at construction)" if rw is None else "")})
         if r["nfiles"] != 0:
             fails.append({"key": "handle-left-open:" + name, "what": f"{r['nfiles']} HDF5 file handle(s) open after close"})
         return fails
     if case["kind"] == "seq":
         for i, (op, rec) in enumerate(zip(case["ops"], obs["ops"])):
             tag = op.get("member") or op["op"]
-            if rec["explicit_so_far"]:
+            # judged: every operation of a read-only span (handle "r" or closed before it, not an explicit writable re-open),
+            # also after earlier explicit writable spans -- the workspace was constructed with mode "r"
+            if rec["handle_before"] not in ("r", "closed") or rec.get("explicit_op"):
                 continue
             if rec["sha_same"] is False:
                 fails.append({"key": "file-changed:seq:" + tag, "what": f"file bytes changed at step {i} ({op})"})
             if rec["handle_after"] not in ("r", "closed"):
-                fails.append({"key": "mode-upgraded:seq:" + tag, "what": f"handle mode {rec['handle_after']} after step {i} ({op})"})
+                fails.append({"key": "mode-upgraded:seq:" + tag,
+                              "what": f"handle mode {rec['handle_after']} after step {i} ({op}) of a workspace constructed with mode 'r' "
+                                      f"(history: {[o.get('member') or (o['op'], o.get('mode')) for o in case['ops'][:i + 1]]})"[:600]})
             for fn in _bypass(rec["entries"]):
                 fails.append({"key": "gate-bypassed:" + fn, "what": f"{fn} entered on a mode-'r' handle at step {i} ({op})"})
             if any(c[1] in ("r+", "a") for c in rec["calls"]) and rec["exc"] is None:
@@ -638,6 +782,24 @@ def oracle(case, obs):
         return fails
     # helpers
     which = case["which"]
+    if which == "monitored_chain":
+        if obs.get("exc") is not None:
+            fails.append({"key": "helper-raised:monitored_chain", "what": f"chained export raised {obs['exc']}: {obs.get('msg')}"})
+        if obs.get("sha_same") is False or obs.get("inode_same") is False:
+            fails.append({"key": "helper-replaced-source:monitored_directory_copy",
+                          "what": f"exporting from a file of the monitoring directory (open read-only) into that directory replaced the "
+                                  f"source file (bytes same: {obs.get('sha_same')}, same inode: {obs.get('inode_same')}; "
+                                  f"{obs.get('files_in_dir')} files for {obs.get('expected_exports')} exports, clock step 0.1 s)"})
+        elif obs.get("exc") is None and obs.get("files_in_dir") != obs.get("expected_exports"):
+            fails.append({"key": "helper-export-overwritten:monitored_directory_copy",
+                          "what": f"{obs.get('expected_exports')} exports 0.1 s apart left {obs.get('files_in_dir')} files"})
+        for fn in [e[0] for e in obs.get("entries", []) if e[0].startswith("H5Writer.")]:
+            fails.append({"key": f"helper-wrote-source:monitored_chain:{fn}", "what": f"export ran {fn} on its read-only source"})
+        if obs.get("handle_after") != "r":
+            fails.append({"key": "helper-changed-handle:monitored_chain", "what": f"source handle {obs.get('handle_after')} after the exports"})
+        if obs.get("nfiles", 0) != 0:
+            fails.append({"key": "handle-left-open:monitored_chain", "what": "open HDF5 files afterwards"})
+        return fails
     if which == "repack_readonly":
         if obs.get("sha_same") is False or obs.get("inode_same") is False:
             fails.append({"key": "repack-rewrites-readonly-file",
@@ -693,6 +855,10 @@ def histogram(cases, obs):
                 continue
             r, rw = o["r"], o["rw"]
             k = str(r["exc"])
+            if rw is None:
+                h.setdefault("fallback_entry_outcome", {})
+                h["fallback_entry_outcome"][k] = h["fallback_entry_outcome"].get(k, 0) + 1
+                continue
             h["entry_outcome_r"][k] = h["entry_outcome_r"].get(k, 0) + 1
             wrote = any(e[0].startswith("H5Writer.") for e in rw["entries"])
             h["entry_twin_writes"] += int(wrote)
